@@ -382,6 +382,21 @@ def analyse(text, wrap):
     return diags, at
 
 
+def goto_sites(text, pos, binds):
+    """the binding sites supp.assistant.location lists for the read at `pos` (cursor on its first character)"""
+    import supp.assistant as A
+    import supp.project as Pj
+    out = set()
+    res = A.location(Pj.Project(['/nonexistent']), text, pos, '<composition>')
+    flat = []
+    for r in res:
+        flat.extend(r if isinstance(r, list) else [r])
+    for r in flat:
+        if r.get('file') == '<composition>' and r.get('loc'):
+            out.add(site_of(tuple(r['loc']), binds))
+    return out
+
+
 def site_of(decl, binds):
     """binding key for a declared_at position: exact position, else the only binding on that line"""
     for k, pos in binds.items():
@@ -453,6 +468,14 @@ def check_program(prog, wrap, layout, prop, path, tag):
         elif prop == 'C02':
             ok = sdefs <= supp_sites
             why = 'every binding some execution reads here is among the definitions supp associates with the read'
+            if ok and sdefs:
+                # the second observation point of the property: go-to-definition from the read lists every such binding
+                goto = goto_sites(text, tuple(pos), R.binds)
+                if not sdefs <= goto:
+                    ok = False
+                    why = 'go-to-definition (supp.assistant.location) from the read lists every binding some execution reads here'
+                    defs = set(R.binds[k] if k is not None else None for k in goto)
+                    defs = set(tuple(d) if d is not None else None for d in defs)
         else:
             ok = (state != 'present' or (None not in supp_sites and supp_sites <= ldefs)) \
                 and (not (state == 'present' and undef) or UNBOUND in lv) \
